@@ -2,16 +2,10 @@ package rules
 
 import (
 	"fmt"
-	"go/ast"
-	"go/token"
-	"go/types"
 	"os"
-	"path/filepath"
 	"reflect"
 	"strconv"
 	"strings"
-
-	"osmcheck/core"
 )
 
 // ---- descriptor model (DESIGN §3.2): a small parser for osmformat.proto ------------------------------------
@@ -138,418 +132,6 @@ func c01WireClass(t string, isEnum bool) int64 {
 		return 5
 	}
 	return 0
-}
-
-// ---- typing of protoscan messages and iterators --------------------------------------------------------------
-
-// c01MsgVar is a protoscan.Message variable with the descriptor message it scans.
-type c01MsgVar struct {
-	obj  types.Object
-	fi   *FuncInfo
-	msg  string // descriptor message name
-	decl token.Pos
-}
-
-// c01Read is one decode call on a message variable or iterator.
-type c01Read struct {
-	call   *ast.CallExpr
-	method string
-	fi     *FuncInfo
-	mv     *c01MsgVar // for message reads
-	caseN  int        // enclosing case number (-1 none)
-}
-
-// c01Iter describes a cached iterator field of the per-worker decoder.
-type c01Iter struct {
-	field   *types.Var
-	sources []c01IterSrc // where it is assigned: (message, field number)
-}
-
-type c01IterSrc struct {
-	msg string
-	num int
-	pos token.Pos
-	fi  *FuncInfo
-}
-
-type c01Model struct {
-	p     *core.Program
-	m     *pbfModel
-	desc  *c01Descriptor
-	vars  []*c01MsgVar
-	byObj map[types.Object]*c01MsgVar
-	// data-expression typing: []byte parameter (function, index) -> message
-	paramMsg map[types.Object]string
-	iters    map[*types.Var]*c01Iter
-	// iterator-typed parameters bound to decoder fields at call sites
-	paramIter map[types.Object]*types.Var
-	reads     []*c01Read
-	dataMsg   map[types.Object]string // local []byte variables holding an embedded message
-	errs      []string
-}
-
-var c01Cache = map[*core.Program]*c01Model{}
-
-func c01Get(r *core.R) *c01Model {
-	if cm, ok := c01Cache[r.P]; ok {
-		return cm
-	}
-	cm := &c01Model{p: r.P, byObj: map[types.Object]*c01MsgVar{}, paramMsg: map[types.Object]string{}, iters: map[*types.Var]*c01Iter{}, paramIter: map[types.Object]*types.Var{}}
-	c01Cache[r.P] = cm
-	cm.m = getPBFModel(r.P)
-	if len(cm.m.errs) > 0 {
-		cm.errs = append(cm.errs, cm.m.errs...)
-		return cm
-	}
-	d, err := c01ParseProto(filepath.Join(r.P.Root, "osmpbf", "internal", "osmpbf", "osmformat.proto"))
-	if err != nil {
-		cm.errs = append(cm.errs, "osmformat.proto: "+err.Error())
-		return cm
-	}
-	cm.desc = d
-	cm.build()
-	return cm
-}
-
-const protoscanMsg = "github.com/paulmach/protoscan.Message"
-const protoscanIter = "github.com/paulmach/protoscan.Iterator"
-
-// enclosingCase finds the field number under which node n executes with respect to message variable mv:
-// a `case N:` of `switch mv.FieldNumber()`, or the body of `if fn == N [&& ...]` where fn := mv.FieldNumber().
-func (cm *c01Model) enclosingCase(fi *FuncInfo, n ast.Node, mv types.Object) int {
-	info := cm.m.info
-	par := parentsOf(cm.p, fi)
-	isFieldNumberOf := func(e ast.Expr) bool {
-		call, ok := ast.Unparen(e).(*ast.CallExpr)
-		if !ok || !isMethod(callee(info, call), protoscanMsg, "FieldNumber") {
-			return false
-		}
-		return rootObj(info, call.Fun.(*ast.SelectorExpr).X) == mv
-	}
-	// variables holding mv.FieldNumber()
-	fnVars := map[types.Object]bool{}
-	ast.Inspect(fi.Decl.Body, func(x ast.Node) bool {
-		if as, ok := x.(*ast.AssignStmt); ok && len(as.Lhs) == 1 && len(as.Rhs) == 1 && isFieldNumberOf(as.Rhs[0]) {
-			fnVars[objOf(info, as.Lhs[0])] = true
-		}
-		return true
-	})
-	var child ast.Node = n
-	for p := par[n]; p != nil; child, p = p, par[p] {
-		switch s := p.(type) {
-		case *ast.CaseClause:
-			sw, ok := par[par[s]].(*ast.SwitchStmt)
-			if !ok || sw.Tag == nil || !isFieldNumberOf(sw.Tag) || len(s.List) != 1 {
-				continue
-			}
-			if v, ok := constInt(info, s.List[0]); ok {
-				return int(v)
-			}
-		case *ast.IfStmt:
-			if s.Body != child {
-				continue
-			}
-			var conj []ast.Expr
-			var split func(e ast.Expr)
-			split = func(e ast.Expr) {
-				e = ast.Unparen(e)
-				if be, ok := e.(*ast.BinaryExpr); ok && be.Op == token.LAND {
-					split(be.X)
-					split(be.Y)
-					return
-				}
-				conj = append(conj, e)
-			}
-			split(s.Cond)
-			for _, cj := range conj {
-				if be, ok := cj.(*ast.BinaryExpr); ok && be.Op == token.EQL && fnVars[objOf(info, be.X)] {
-					if v, ok := constInt(info, be.Y); ok {
-						return int(v)
-					}
-				}
-			}
-		case *ast.FuncLit:
-			return -1
-		}
-	}
-	return -1
-}
-
-func (cm *c01Model) build() {
-	m := cm.m
-	info := m.info
-	// root: the function the worker entry calls with the blob data
-	var entry *FuncInfo
-	for _, fn := range m.units[m.goOf("worker").lit].calls {
-		sig := fn.Type().(*types.Signature)
-		if sig.Recv() != nil && namedPath(sig.Recv().Type()) == namedPath(m.ddT) && sig.Results().Len() == 2 {
-			entry = findFunc(m.pk, funcName(fn))
-		}
-	}
-	if entry == nil {
-		cm.errs = append(cm.errs, "decode entry point called by the worker")
-		return
-	}
-	// the []byte parameter of the in-package function called from the entry with a []byte is a PrimitiveBlock
-	ast.Inspect(entry.Decl.Body, func(n ast.Node) bool {
-		call, ok := n.(*ast.CallExpr)
-		if !ok {
-			return true
-		}
-		fn := callee(info, call)
-		if fn == nil || fn.Pkg() != m.pk.Types || fn.Type().(*types.Signature).Recv() == nil || len(call.Args) != 1 {
-			return true
-		}
-		if sl, ok := info.TypeOf(call.Args[0]).Underlying().(*types.Slice); !ok || !types.Identical(sl.Elem(), types.Typ[types.Byte]) {
-			return true
-		}
-		if tf := findFunc(m.pk, funcName(fn)); tf != nil {
-			if po := c01Param(info, tf, 0); po != nil {
-				cm.paramMsg[po] = "PrimitiveBlock"
-			}
-		}
-		return true
-	})
-	if len(cm.paramMsg) == 0 {
-		cm.errs = append(cm.errs, "function receiving the primitive block bytes from the worker entry point")
-		return
-	}
-	// fixpoint: discover message variables and propagate data typing
-	funcs := []*FuncInfo{}
-	for _, u := range m.sortedUnits() {
-		if fd, ok := u.node.(*ast.FuncDecl); ok && u.roles["worker"] && !isGenerated(cm.p, fd.Pos()) {
-			funcs = append(funcs, u.fi)
-		}
-	}
-	dataMsg := map[types.Object]string{} // local []byte var -> message
-	cm.dataMsg = dataMsg
-	for changed, rounds := true, 0; changed && rounds < 10; rounds++ {
-		changed = false
-		for _, fi := range funcs {
-			ast.Inspect(fi.Decl.Body, func(n ast.Node) bool {
-				as, ok := n.(*ast.AssignStmt)
-				if !ok || len(as.Rhs) != 1 {
-					return true
-				}
-				call, ok := as.Rhs[0].(*ast.CallExpr)
-				if !ok {
-					return true
-				}
-				fn := callee(info, call)
-				switch {
-				case isPkgFunc(fn, "github.com/paulmach/protoscan", "New") && len(call.Args) == 1 && len(as.Lhs) == 1:
-					do := objOf(info, call.Args[0])
-					msg := cm.paramMsg[do]
-					if msg == "" {
-						msg = dataMsg[do]
-					}
-					vo := objOf(info, as.Lhs[0])
-					if msg != "" && vo != nil && cm.byObj[vo] == nil {
-						mv := &c01MsgVar{obj: vo, fi: fi, msg: msg, decl: as.Pos()}
-						cm.vars = append(cm.vars, mv)
-						cm.byObj[vo] = mv
-						changed = true
-					}
-				case isMethod(fn, protoscanMsg, "MessageData") && len(as.Lhs) == 2:
-					mvo := rootObj(info, call.Fun.(*ast.SelectorExpr).X)
-					mv := cm.byObj[mvo]
-					if mv == nil {
-						return true
-					}
-					n := cm.enclosingCase(fi, call, mvo)
-					if n < 0 {
-						return true
-					}
-					if f := cm.desc.Messages[mv.msg].Fields[n]; f != nil && f.IsMsg {
-						do := objOf(info, as.Lhs[0])
-						if do != nil && dataMsg[do] == "" {
-							dataMsg[do] = f.Type
-							changed = true
-						}
-					}
-				}
-				return true
-			})
-			// calls passing typed data into in-package functions
-			ast.Inspect(fi.Decl.Body, func(n ast.Node) bool {
-				call, ok := n.(*ast.CallExpr)
-				if !ok {
-					return true
-				}
-				fn := callee(info, call)
-				if fn == nil || fn.Pkg() != m.pk.Types {
-					return true
-				}
-				tf := findFunc(m.pk, funcName(fn))
-				if tf == nil {
-					return true
-				}
-				for i, a := range call.Args {
-					do := objOf(info, a)
-					if do == nil {
-						continue
-					}
-					msg := dataMsg[do]
-					if msg == "" {
-						msg = cm.paramMsg[do]
-					}
-					if msg == "" {
-						continue
-					}
-					if po := c01Param(info, tf, i); po != nil {
-						if old := cm.paramMsg[po]; old == "" {
-							cm.paramMsg[po] = msg
-							changed = true
-						} else if old != msg {
-							cm.errs = append(cm.errs, fmt.Sprintf("parameter %s of %s receives both %s and %s data", po.Name(), tf.Name(), old, msg))
-						}
-					}
-				}
-				return true
-			})
-		}
-	}
-	// reads and iterator assignments
-	for _, fi := range funcs {
-		fi := fi
-		ast.Inspect(fi.Decl.Body, func(n ast.Node) bool {
-			call, ok := n.(*ast.CallExpr)
-			if !ok {
-				return true
-			}
-			fn := callee(info, call)
-			if fn == nil {
-				return true
-			}
-			sel, ok := call.Fun.(*ast.SelectorExpr)
-			if !ok {
-				return true
-			}
-			recvT := ""
-			if s := info.Selections[sel]; s != nil {
-				recvT = namedPath(s.Recv())
-			}
-			if recvT != protoscanMsg {
-				return true
-			}
-			mvo := rootObj(info, sel.X)
-			mv := cm.byObj[mvo]
-			switch fn.Name() {
-			case "Next", "Err", "FieldNumber", "Skip", "Reset", "WireType":
-				return true
-			}
-			rd := &c01Read{call: call, method: fn.Name(), fi: fi, mv: mv, caseN: -1}
-			if mv != nil {
-				rd.caseN = cm.enclosingCase(fi, call, mvo)
-			}
-			cm.reads = append(cm.reads, rd)
-			return true
-		})
-		// dec.F, err = X.Iterator(dec.F)
-		ast.Inspect(fi.Decl.Body, func(n ast.Node) bool {
-			as, ok := n.(*ast.AssignStmt)
-			if !ok || len(as.Rhs) != 1 || len(as.Lhs) != 2 {
-				return true
-			}
-			call, ok := as.Rhs[0].(*ast.CallExpr)
-			if !ok || !isMethod(callee(info, call), protoscanMsg, "Iterator") {
-				return true
-			}
-			f := fieldOf(info, as.Lhs[0])
-			if f == nil {
-				return true
-			}
-			mvo := rootObj(info, call.Fun.(*ast.SelectorExpr).X)
-			mv := cm.byObj[mvo]
-			if mv == nil {
-				return true
-			}
-			it := cm.iters[f]
-			if it == nil {
-				it = &c01Iter{field: f}
-				cm.iters[f] = it
-			}
-			it.sources = append(it.sources, c01IterSrc{msg: mv.msg, num: cm.enclosingCase(fi, call, mvo), pos: as.Pos(), fi: fi})
-			return true
-		})
-	}
-	// iterator-typed parameters bound at call sites
-	for _, fi := range funcs {
-		ast.Inspect(fi.Decl.Body, func(n ast.Node) bool {
-			call, ok := n.(*ast.CallExpr)
-			if !ok {
-				return true
-			}
-			fn := callee(info, call)
-			if fn == nil || fn.Pkg() != m.pk.Types {
-				return true
-			}
-			tf := findFunc(m.pk, funcName(fn))
-			if tf == nil {
-				return true
-			}
-			for i, a := range call.Args {
-				if f := fieldOf(info, a); f != nil && namedPath(f.Type()) == protoscanIter {
-					if po := c01Param(info, tf, i); po != nil {
-						if old, ok := cm.paramIter[po]; ok && old != f {
-							cm.errs = append(cm.errs, fmt.Sprintf("iterator parameter %s of %s is bound to different fields", po.Name(), tf.Name()))
-						}
-						cm.paramIter[po] = f
-					}
-				}
-			}
-			return true
-		})
-	}
-}
-
-// c01Param returns the idx-th parameter object of a declared function.
-func c01Param(info *types.Info, fi *FuncInfo, idx int) types.Object {
-	pi := 0
-	for _, fld := range fi.Decl.Type.Params.List {
-		for _, nm := range fld.Names {
-			if pi == idx {
-				return info.Defs[nm]
-			}
-			pi++
-		}
-	}
-	return nil
-}
-
-// iterField resolves an iterator expression (dec.F or a bound parameter) to the decoder field.
-func (cm *c01Model) iterField(e ast.Expr) *types.Var {
-	info := cm.m.info
-	if f := fieldOf(info, e); f != nil && namedPath(f.Type()) == protoscanIter {
-		return f
-	}
-	if o := objOf(info, e); o != nil {
-		return cm.paramIter[o]
-	}
-	return nil
-}
-
-// iterColumn returns the descriptor field(s) an iterator field carries: a single (type, name, delta) when all its
-// assignment sites agree on name and element type.
-func (cm *c01Model) iterColumn(f *types.Var) (*c01Field, string) {
-	it := cm.iters[f]
-	if it == nil || len(it.sources) == 0 {
-		return nil, "never assigned from Message.Iterator"
-	}
-	var first *c01Field
-	for _, s := range it.sources {
-		msg := cm.desc.Messages[s.msg]
-		if msg == nil || msg.Fields[s.num] == nil {
-			return nil, fmt.Sprintf("assigned under case %d of %s, which the descriptor does not define", s.num, s.msg)
-		}
-		fd := msg.Fields[s.num]
-		if first == nil {
-			first = fd
-		} else if first.Name != fd.Name || first.Type != fd.Type || first.Delta != fd.Delta {
-			return nil, fmt.Sprintf("assigned from %s.%s (%s) and from a column named %s (%s)", s.msg, fd.Name, fd.Type, first.Name, first.Type)
-		}
-	}
-	return first, ""
 }
 
 // pbTag parses a generated `protobuf:"..."` struct tag.
